@@ -1,6 +1,7 @@
 #!/bin/bash
 # usage: tools/regress_seeds.sh [seed ...]  -- runs every seed of /verif/seeded (or the given ones) against the check of its
 # property (quick tier) on a scratch copy and writes one line per seed to seeded/RESULTS.txt:  <seed> <property> exit=<rc> <failed obligations>
+# several instances may run side by side over disjoint seed lists (the update of RESULTS.txt is under a lock)
 # expected: exit=1 for seeded breakages and own-* (re-introduced defects), exit=0 (or 2) for benign-*; never exit=1 for benign-*.
 cd /verif
 OUT=seeded/RESULTS.txt
@@ -13,8 +14,7 @@ for s in $SEEDS; do
     tools/try_seed.sh $s $p > /var/tmp/vp/regress_${s}_${p}.out 2>&1
     rc=$(grep -o 'exit=[0-9]*' /var/tmp/vp/regress_${s}_${p}.out | tail -1)
     ob=$(grep 'failed obligation' /var/tmp/vp/regress_${s}_${p}.out | sed 's/.*failed obligation: //' | sort -u | tr '\n' ' ')
-    grep -v "^$s $p " $OUT > $OUT.tmp 2>/dev/null; mv $OUT.tmp $OUT 2>/dev/null
-    echo "$s $p $rc $ob" >> $OUT
+    ( flock 9; grep -v "^$s $p " $OUT > $OUT.tmp.$$ 2>/dev/null; mv $OUT.tmp.$$ $OUT 2>/dev/null
+      echo "$s $p $rc $ob" >> $OUT; sort -o $OUT $OUT ) 9> /var/tmp/vp/results.lock
   done
 done
-sort -o $OUT $OUT
